@@ -233,7 +233,8 @@ def run(chk, prog):
                            else 'its operands are not checked'), vef.loc(0))
         darms = explicit_arms(prog, vnd, 'ast::Node') or set()
         needd = [v['n'] for v in node['variants'] if any(contains_type(prog, f['tree'], TN) for f in v['fields'])] + \
-                [v['n'] for v in node['variants'] if 'Divert' in v['n'] or v['n'] == 'TunnelOnwardsWithTarget']
+                [v['n'] for v in node['variants'] if 'Divert' in v['n']]
+        # (not TunnelOnwardsWithTarget: its target is also rejected elsewhere - `->-> nowhere` fails without that arm)
         for v in sorted(set(needd)):
             chk.decide(RV, chk.key(RV, 'validate_node_divert', v), v in darms, 'visited',
                        'validate_node_divert has no arm for Node::%s: a divert written there is emitted without being '
